@@ -42,13 +42,14 @@ type ccall struct {
 }
 
 type cthread struct {
-	kind  string // client, consumer, fork, split, join, ctor (a constructor from n initial values, then size and array)
-	form  string // ctor: array, seq, module, parse
-	n     int    // ctor: number of initial values
-	vals  []int  // ctor: the initial values (codes, see concelem.go); len(vals) == n
-	calls []ccall
-	q     int   // consumer: queue; fork/split: input; join: output
-	qs    []int // fork/split: outputs; join: inputs
+	kind   string // client, consumer, fork, split, join, ctor (a constructor from n initial values, then size and array)
+	form   string // ctor: array, seq, module, parse
+	n      int    // ctor: number of initial values
+	vals   []int  // ctor: the initial values (codes, see concelem.go); len(vals) == n
+	capArg int    // ctor, form modulecap: the explicit capacity passed to the module-level constructor next to the values
+	calls  []ccall
+	q      int   // consumer: queue; fork/split: input; join: output
+	qs     []int // fork/split: outputs; join: inputs
 }
 
 type cprog struct {
@@ -102,8 +103,10 @@ func (t cthread) gallina() string {
 		return "client [" + strings.Join(cs, "; ") + "]"
 	case "ctor":
 		cs := make([]string, 0, t.n+2)
-		for _, v := range t.vals {
-			cs = append(cs, fmt.Sprintf("CAdd 0 %d", v))
+		if t.form != "modulecap" { // (with an explicit capacity the module-level constructor makes an EMPTY queue of that capacity)
+			for _, v := range t.vals {
+				cs = append(cs, fmt.Sprintf("CAdd 0 %d", v))
+			}
 		}
 		cs = append(cs, "CGetSize 0", "CAsArray 0")
 		return "client [" + strings.Join(cs, "; ") + "]"
@@ -137,6 +140,9 @@ func (t cthread) human() string {
 		}
 		return "client{" + strings.Join(cs, " ") + "}"
 	case "ctor":
+		if t.form == "modulecap" {
+			return fmt.Sprintf("client{q0 := module-level Queue(capacity %d, array of %d values %s) - expected: an empty queue of that capacity, the array is ignored; size(q0) array(q0)}", t.capArg, t.n, shortCodes(t.vals))
+		}
 		return fmt.Sprintf("client{q0 := Queue constructor form=%s with %d initial values %s; size(q0) array(q0)}", t.form, t.n, shortCodes(t.vals))
 	case "consumer":
 		return fmt.Sprintf("consumer-until-closed(q%d)", t.q)
@@ -557,6 +563,12 @@ func runProgramT[V any](prog cprog, cd elemCodec[V], choose func(step int, enabl
 					q = class.MakeFromSequence(col.List[V](sharedNotation).MakeFromArray(vals))
 				case "module":
 					q = fra.Queue[V](vals)
+				case "modulecap":
+					if pt.capArg%2 == 0 {
+						q = fra.Queue[V](pt.capArg, vals)
+					} else {
+						q = fra.Queue[V](vals, uint(pt.capArg))
+					}
 				default: // "parse": integers only (genConc never asks for it with another element type)
 					items := make([]string, len(vals))
 					for i := range vals {
@@ -568,8 +580,10 @@ func runProgramT[V any](prog cprog, cd elemCodec[V], choose func(step int, enabl
 					}
 					q = sharedNotation.ParseSource(src).(anyQueue)
 				}
-				for i := 0; i < pt.n; i++ {
-					t.results = append(t.results, "RAdded")
+				if pt.form != "modulecap" {
+					for i := 0; i < pt.n; i++ {
+						t.results = append(t.results, "RAdded")
+					}
 				}
 				s.mu.Lock()
 				s.queues[0] = q
@@ -721,6 +735,9 @@ func checkRun(prog cprog, run crun) []string {
 	}
 	for _, t := range prog.threads {
 		if t.kind == "ctor" && !run.final {
+			if t.form == "modulecap" {
+				return []string{fmt.Sprintf("the module-level constructor Queue(capacity %d, array of %d values %s) did not return: it is blocked on the capacity of the queue it is constructing", t.capArg, t.n, codeNames(prog.elem, t.vals))}
+			}
 			return []string{fmt.Sprintf("the Queue constructor (form %s) with %d initial values did not return: it is blocked on its own capacity", t.form, t.n)}
 		}
 	}
@@ -827,6 +844,14 @@ func checkRun(prog cprog, run crun) []string {
 		}
 	}
 	for _, t := range prog.threads {
+		if t.kind == "ctor" && t.form == "modulecap" {
+			// no class-level constructor takes a capacity AND values; the module-level one gives the capacity precedence and
+			// ignores the array: the one thing demanded of the call is that it returns (it is not filled beyond its capacity)
+			if run.final && len(run.arrays) > 0 && len(run.arrays[0]) > t.capArg {
+				bad = append(bad, fmt.Sprintf("module-level Queue(capacity %d, %d values) holds %d values: more than its capacity", t.capArg, t.n, len(run.arrays[0])))
+			}
+			continue
+		}
 		if t.kind == "ctor" && run.final && len(run.arrays) > 0 && fmt.Sprint(run.arrays[0]) != fmt.Sprint(append([]int{}, t.vals...)) {
 			bad = append(bad, fmt.Sprintf("the Queue constructor (form %s) was given %s but the new queue holds %s", t.form, codeNames(prog.elem, t.vals), codeNames(prog.elem, run.arrays[0])))
 		}
@@ -1198,6 +1223,13 @@ func genConc(prop string, seed uint64, tier, outDir string, count int) error {
 				if form == "module" && n == 0 {
 					form = "array" // the module-level form with no data is C20's matter
 				}
+				capArg := 0
+				if r.chance(1, 4) {
+					// the module-level constructor given BOTH a capacity and an array, capacities around the number of values
+					form = "modulecap"
+					capArg = []int{1, 2, 3, 16, 17}[r.intn(5)]
+					n = []int{0, capArg - 1, capArg, capArg + 1, capArg + 3, 2 * capArg}[r.intn(6)]
+				}
 				vals := genStream(r, n, elem, streamPatterns[r.intn(len(streamPatterns))])
 				if form == "parse" {
 					for k := range vals {
@@ -1205,7 +1237,10 @@ func genConc(prop string, seed uint64, tier, outDir string, count int) error {
 					}
 				}
 				prog = cprog{family: "ctor", elem: elem, caps: []int{0}, capExpr: []string{fmt.Sprintf("Z.to_nat (Z.max Params.queue_default_capacity %d)", n)}}
-				prog.threads = []cthread{{kind: "ctor", form: form, n: n, vals: vals}}
+				if form == "modulecap" {
+					prog.caps, prog.capExpr = []int{capArg}, nil
+				}
+				prog.threads = []cthread{{kind: "ctor", form: form, n: n, vals: vals, capArg: capArg}}
 			} else {
 				prog = genPC(r, i%2 == 1, concElems[(i/2)%len(concElems)])
 			}
@@ -1344,7 +1379,7 @@ func genConc(prop string, seed uint64, tier, outDir string, count int) error {
 	}
 	meta.Extra["cases_violating_the_property_predicates_on_the_implementation"] = predViol
 	meta.Cases = len(cases)
-	meta.Rule = "the queues of a case carry one of the element types int, string, *int, any, []int (each in turn); values are written as integer codes (0 = the zero value of the type: 0, \"\", nil pointer, nil interface, nil slice; 1..9 further special values: pointer to 0, any(\"\"), any(0), any((*int)(nil)), any([]int(nil)), any(false), empty non-nil slice; >= 10 ordinary distinct values); about a third of the added values are zero/special, one program in eight adds only zero values; C06 streams follow the patterns no-zero / zero-first / zero-middle / zero-last / all-zero / mixed / specials-only in turn; each case is a client program (C04/C05: 1-3 producers adding 1-3 values, 1-3 consumers (fixed number of RemoveHead or read-until-closed), capacity 1-3, optional closer behind the wait group, observers, optional RemoveAll caller, occasionally a CloseQueue racing with AddValue; C06: Fork/Split/Split+Join with stream length 0-6, fan-out 2-3, capacity 1-2, feeder, one reader per output, a waiter) together with the schedule the controlled scheduler drew for it on the real code (thorough: additionally every schedule of a few small programs, up to 4000 each); distinct = the (program, schedule, results) text differs; non-trivial = at least 4 granted steps"
+	meta.Rule = "the queues of a case carry one of the element types int, string, *int, any, []int (each in turn); values are written as integer codes (0 = the zero value of the type: 0, \"\", nil pointer, nil interface, nil slice; 1..9 further special values: pointer to 0, any(\"\"), any(0), any((*int)(nil)), any([]int(nil)), any(false), empty non-nil slice; >= 10 ordinary distinct values); about a third of the added values are zero/special, one program in eight adds only zero values; C06 streams follow the patterns no-zero / zero-first / zero-middle / zero-last / all-zero / mixed / specials-only in turn; each case is a client program (C04/C05: 1-3 producers adding 1-3 values, 1-3 consumers (fixed number of RemoveHead or read-until-closed), capacity 1-3, optional closer behind the wait group, observers, optional RemoveAll caller; C05 constructors: class-level MakeFromArray / MakeFromSequence, the module-level Queue(values), a parsed literal, and - a quarter of them - the module-level Queue(capacity, values) with 0 .. 2*capacity values, which must return (an empty queue of that capacity on the pinned tree), occasionally a CloseQueue racing with AddValue; C06: Fork/Split/Split+Join with stream length 0-6, fan-out 2-3, capacity 1-2, feeder, one reader per output, a waiter) together with the schedule the controlled scheduler drew for it on the real code (thorough: additionally every schedule of a few small programs, up to 4000 each); distinct = the (program, schedule, results) text differs; non-trivial = at least 4 granted steps"
 	for i := 0; i < 3 && i < len(cases); i++ {
 		meta.Samples = append(meta.Samples, meta.Traces[i*len(cases)/3])
 	}
